@@ -341,8 +341,18 @@ func TestC14(t *testing.T) {
 					if gr.Intn(2) == 0 || (k == 0 && g%2 == 0) {
 						o.write = true
 						o.val = fmt.Sprintf("v-%d-%d", g, k)
+						var stored []byte
+						if gr.Intn(8) == 0 {
+							// an empty (or nil) value is a value: it replaces what was there and is present afterwards
+							o.val = ""
+							if gr.Bool() {
+								stored = []byte{}
+							}
+						} else {
+							stored = []byte(o.val)
+						}
 						o.call = rt.Tick()
-						ev.FormattedAs(o.format, []byte(o.val))
+						ev.FormattedAs(o.format, stored)
 						o.ret = rt.Tick()
 					} else {
 						o.call = rt.Tick()
